@@ -599,3 +599,824 @@ Qed.
     middleware is applied *)
 Example nip11_negative_count_panics : build_nip11 (DocLim (mkLim 2 (-1) 0 0 0 0 0 0)) = BPanic.
 Proof. reflexivity. Qed.
+
+(* ================================================================== *)
+(** * 3. C18 *)
+
+(** ** sets as lists *)
+Lemma set_remove_In x y l : In y (set_remove x l) <-> In y l /\ y <> x.
+Proof.
+  unfold set_remove. rewrite filter_In, negb_true_iff, str_eqb_neq. intuition congruence.
+Qed.
+
+Lemma set_remove_notin x l : ~ In x l -> set_remove x l = l.
+Proof.
+  induction l as [|y l IH]; simpl; [reflexivity|]. intro H.
+  destruct (str_eqb x y) eqn:E; simpl.
+  - apply str_eqb_eq in E. subst. exfalso. apply H. now left.
+  - f_equal. apply IH. intro. apply H. now right.
+Qed.
+
+Lemma set_remove_self x l : ~ In x (set_remove x l).
+Proof. rewrite set_remove_In. tauto. Qed.
+
+Lemma set_remove_NoDup x l : NoDup l -> NoDup (set_remove x l).
+Proof. apply NoDup_filter. Qed.
+
+Lemma set_remove_length_le x l : (length (set_remove x l) <= length l)%nat.
+Proof.
+  unfold set_remove. induction l as [|y l IH]; simpl; [lia|]. destruct (negb (str_eqb x y)); simpl; lia.
+Qed.
+
+Lemma set_remove_length_in x l : NoDup l -> In x l -> S (length (set_remove x l)) = length l.
+Proof.
+  induction l as [|y l IH]; simpl; [tauto|]. intros ND [->|Hin]; inversion ND; subst.
+  - rewrite str_eqb_refl. simpl. now rewrite set_remove_notin.
+  - destruct (str_eqb x y) eqn:E; simpl.
+    + apply str_eqb_eq in E. subst. contradiction.
+    + f_equal. now apply IH.
+Qed.
+
+Lemma set_remove_cons_same x l : set_remove x (x :: l) = set_remove x l.
+Proof. unfold set_remove. simpl. now rewrite str_eqb_refl. Qed.
+
+Lemma set_add_NoDup x l : NoDup l -> NoDup (set_add x l).
+Proof.
+  unfold set_add. destruct (mem_str x l) eqn:E; [auto|]. intro. constructor; [|assumption].
+  intro H0. apply mem_str_In in H0. congruence.
+Qed.
+
+Lemma mem_str_false x l : mem_str x l = false <-> ~ In x l.
+Proof.
+  split.
+  - intros E H. apply mem_str_In in H. congruence.
+  - intro H. destruct (mem_str x l) eqn:E; [|reflexivity]. apply mem_str_In in E. contradiction.
+Qed.
+
+Lemma zlen_cons {A} (x : A) l : zlen (x :: l) = zlen l + 1.
+Proof. unfold zlen. simpl length. lia. Qed.
+
+(** ** one middleware over a history of client messages *)
+Fixpoint layer_run (k : mwk) (now : Z) (st : mstate) (h : list cmsg) : mstate * list cres :=
+  match h with
+  | [] => (st, [])
+  | m :: r =>
+      let (st1, c) := mw_client_step k now st m in
+      let (st2, cs) := layer_run k now st1 r in
+      (st2, c :: cs)
+  end.
+
+Definition forwarded (cs : list cres) : list cmsg :=
+  flat_map (fun c => match c with Forward m => [m] | Reject _ => [] end) cs.
+
+Lemma forwarded_cons c cs :
+  forwarded (c :: cs) = (match c with Forward m => [m] | Reject _ => [] end) ++ forwarded cs.
+Proof. reflexivity. Qed.
+
+(** ** the subscription quota *)
+Definition q_inv (n : Z) (open : list str) : Prop := NoDup open /\ zlen open <= n.
+
+Lemma quota_req n open sub fs :
+  q_inv n open ->
+  (In sub open \/ zlen open < n ->
+   quota_client n open (CReq sub fs) = (set_add sub open, Forward (CReq sub fs))) /\
+  (~ (In sub open \/ zlen open < n) ->
+   exists t, quota_client n open (CReq sub fs) = (open, Reject (SClosed sub [] t))).
+Proof.
+  intros [ND L]. cbn [quota_client]. unfold set_add.
+  destruct (mem_str sub open) eqn:M.
+  - assert (O : g_quota_over (zlen open) n = false) by (now apply g_quota_over_ok).
+    rewrite O. split; [reflexivity|]. apply mem_str_In in M. tauto.
+  - apply mem_str_false in M. rewrite zlen_cons.
+    destruct (g_quota_over (zlen open + 1) n) eqn:O.
+    + split.
+      * intros [H|H]; [contradiction|].
+        assert (g_quota_over (zlen open + 1) n = false) by (apply g_quota_over_ok; lia). congruence.
+      * intros _. rewrite set_remove_cons_same, set_remove_notin by assumption. eauto.
+    + split; [reflexivity|]. intro H. exfalso. apply H. right. apply g_quota_over_ok in O. lia.
+Qed.
+
+(** a REQ is forwarded iff its id is already open or fewer than N are open;
+    otherwise it is answered with CLOSED (its own id) and changes nothing *)
+Theorem quota_forward_iff n open sub fs :
+  q_inv n open ->
+  (snd (quota_client n open (CReq sub fs)) = Forward (CReq sub fs) <-> In sub open \/ zlen open < n).
+Proof.
+  intro I. destruct (quota_req n open sub fs I) as [A B]. split.
+  - intro F. destruct (mem_str sub open) eqn:M; [left; now apply mem_str_In|].
+    destruct (Z.lt_ge_cases (zlen open) n) as [L|L]; [now right|].
+    destruct B as [t E]; [|rewrite E in F; discriminate].
+    apply mem_str_false in M. intros [H|H]; [contradiction | lia].
+  - intro H. now rewrite (A H).
+Qed.
+
+Lemma quota_step_inv n open m : q_inv n open -> q_inv n (fst (quota_client n open m)).
+Proof.
+  intros I. destruct m as [e|sub fs|sub|e|sub fs]; try exact I.
+  - destruct (quota_req n open sub fs I) as [A B].
+    destruct (mem_str sub open) eqn:M.
+    + apply mem_str_In in M. rewrite A by (now left). cbn [fst]. unfold set_add.
+      apply mem_str_In in M. now rewrite M.
+    + destruct (Z.lt_ge_cases (zlen open) n) as [L|L].
+      * rewrite A by (now right). cbn [fst]. destruct I as [ND Le]. split; [now apply set_add_NoDup|].
+        unfold set_add. rewrite M, zlen_cons. lia.
+      * apply mem_str_false in M. destruct B as [t E]; [intros [H|H]; [contradiction|lia]|].
+        now rewrite E.
+  - cbn [quota_client fst]. destruct I as [ND Le]. split; [now apply set_remove_NoDup|].
+    pose proof (set_remove_length_le sub open). unfold zlen in *. lia.
+Qed.
+
+(** a CLOSE is always forwarded and frees the slot of its id *)
+Theorem close_frees n open sub :
+  quota_client n open (CClose sub) = (set_remove sub open, Forward (CClose sub)) /\
+  ~ In sub (set_remove sub open) /\
+  (q_inv n open -> In sub open -> zlen (set_remove sub open) = zlen open - 1).
+Proof.
+  split; [reflexivity|]. split; [apply set_remove_self|].
+  intros [ND _] Hin. pose proof (set_remove_length_in sub open ND Hin). unfold zlen. lia.
+Qed.
+
+Corollary close_then_req_forwarded n open sub sub' fs :
+  q_inv n open -> In sub open ->
+  snd (quota_client n (fst (quota_client n open (CClose sub))) (CReq sub' fs)) = Forward (CReq sub' fs).
+Proof.
+  intros I Hin. destruct (close_frees n open sub) as [E [_ L]]. rewrite E. cbn [fst].
+  apply quota_forward_iff.
+  - pose proof (quota_step_inv n open (CClose sub) I) as I'. now rewrite E in I'.
+  - right. rewrite (L I Hin). destruct I. lia.
+Qed.
+
+Lemma quota_layer_step n now open m :
+  mw_client_step (MaxSubs n) now (StSubs open) m =
+  (StSubs (fst (quota_client n open m)), snd (quota_client n open m)).
+Proof. destruct m; cbn [mw_client_step st_subs]; try reflexivity; now destruct (quota_client n open _). Qed.
+
+(** [quota_invariant]: at every point of every history at most N ids are open *)
+Theorem quota_invariant n now h open :
+  q_inv n open -> q_inv n (st_subs (fst (layer_run (MaxSubs n) now (StSubs open) h))).
+Proof.
+  revert open. induction h as [|m h IH]; intros open I; [exact I|].
+  cbn [layer_run]. rewrite quota_layer_step.
+  specialize (IH _ (quota_step_inv n open m I)).
+  destruct (layer_run (MaxSubs n) now (StSubs (fst (quota_client n open m))) h). exact IH.
+Qed.
+
+(** the set kept by the middleware is the set of subscriptions open at the
+    wrapped handler, as computed from the messages forwarded to it *)
+Lemma quota_step_down n open m :
+  q_inv n open ->
+  fst (quota_client n open m) =
+  down_open (match snd (quota_client n open m) with Forward x => [x] | Reject _ => [] end) open.
+Proof.
+  intro I. destruct m as [e|sub fs|sub|e|sub fs]; try reflexivity.
+  destruct (quota_req n open sub fs I) as [A B].
+  destruct (mem_str sub open) eqn:M.
+  - apply mem_str_In in M. now rewrite A by (now left).
+  - destruct (Z.lt_ge_cases (zlen open) n) as [L|L].
+    + now rewrite A by (now right).
+    + apply mem_str_false in M. destruct B as [t E]; [intros [H|H]; [contradiction|lia]|]. now rewrite E.
+Qed.
+
+Lemma down_open_app a b acc : down_open (a ++ b) acc = down_open b (down_open a acc).
+Proof.
+  revert acc. induction a as [|m a IH]; intro acc; [reflexivity|].
+  destruct m; simpl; apply IH.
+Qed.
+
+Theorem quota_open_is_down_open n now h open :
+  q_inv n open ->
+  st_subs (fst (layer_run (MaxSubs n) now (StSubs open) h)) =
+  down_open (forwarded (snd (layer_run (MaxSubs n) now (StSubs open) h))) open.
+Proof.
+  revert open. induction h as [|m h IH]; intros open I; [reflexivity|].
+  cbn [layer_run]. rewrite quota_layer_step.
+  specialize (IH _ (quota_step_inv n open m I)).
+  destruct (layer_run (MaxSubs n) now (StSubs (fst (quota_client n open m))) h) as [st2 cs].
+  cbn [fst snd] in *. rewrite IH. rewrite forwarded_cons, down_open_app.
+  now rewrite <- (quota_step_down n open m I).
+Qed.
+
+Lemma down_open_bounded_app n a b acc :
+  down_open_bounded n (a ++ b) acc = down_open_bounded n a acc && down_open_bounded n b (down_open a acc).
+Proof.
+  revert acc. induction a as [|m a IH]; intro acc; [reflexivity|].
+  cbn [app down_open_bounded]. rewrite IH, andb_assoc.
+  replace (down_open (m :: a) acc) with (down_open a (down_open [m] acc)); [reflexivity|].
+  now rewrite <- down_open_app.
+Qed.
+
+(** hence at most N subscriptions are open downstream after every message *)
+Theorem quota_down_bounded n now h open :
+  q_inv n open ->
+  down_open_bounded n (forwarded (snd (layer_run (MaxSubs n) now (StSubs open) h))) open = true.
+Proof.
+  revert open. induction h as [|m h IH]; intros open I; [reflexivity|].
+  cbn [layer_run]. rewrite quota_layer_step.
+  pose proof (quota_step_inv n open m I) as I'. specialize (IH _ I').
+  destruct (layer_run (MaxSubs n) now (StSubs (fst (quota_client n open m))) h) as [st2 cs].
+  cbn [fst snd] in *. rewrite forwarded_cons, down_open_bounded_app.
+  rewrite <- (quota_step_down n open m I), IH, andb_true_r.
+  pose proof (quota_step_down n open m I) as D.
+  destruct (snd (quota_client n open m)) as [x|r]; [|reflexivity].
+  cbn [down_open_bounded]. rewrite <- D, andb_true_r. apply Z.leb_le. apply I'.
+Qed.
+
+(* ------------------------------------------------------------------ *)
+(** ** the LRU window *)
+
+Lemma recent_In x l : In x (recent l) <-> In x l.
+Proof.
+  induction l as [|y l IH]; simpl; [tauto|]. rewrite set_remove_In, IH.
+  destruct (str_dec x y); intuition congruence.
+Qed.
+
+Lemma recent_NoDup l : NoDup (recent l).
+Proof.
+  induction l as [|y l IH]; simpl; constructor.
+  - apply set_remove_self.
+  - now apply set_remove_NoDup.
+Qed.
+
+Lemma firstn_In {A} n (l : list A) x : In x (firstn n l) -> In x l.
+Proof.
+  revert l. induction n as [|n IH]; intros [|y l]; simpl; try tauto.
+  intros [->|H]; [now left | right; now apply IH].
+Qed.
+
+Lemma firstn_NoDup {A} n (l : list A) : NoDup l -> NoDup (firstn n l).
+Proof.
+  revert l. induction n as [|n IH]; intros [|x l] ND; simpl; try constructor.
+  - inversion ND; subst. intro H. apply H1. eapply firstn_In. exact H.
+  - inversion ND; subst. now apply IH.
+Qed.
+
+Lemma set_remove_cons_neq x y l : str_eqb x y = false -> set_remove x (y :: l) = y :: set_remove x l.
+Proof. intro E. unfold set_remove. cbn [filter]. now rewrite E. Qed.
+
+(** removing an element from a prefix of a duplicate-free list *)
+Lemma firstn_remove_prefix x k (l : list str) :
+  NoDup l -> firstn k (set_remove x (firstn (S k) l)) = firstn k (set_remove x l).
+Proof.
+  revert k. induction l as [|y l IH]; intros k ND; [reflexivity|].
+  inversion ND as [|? ? Hn ND']; subst.
+  cbn [firstn]. destruct (str_eqb x y) eqn:E.
+  - apply str_eqb_eq in E. subst y. rewrite !set_remove_cons_same.
+    rewrite (set_remove_notin x l Hn).
+    rewrite set_remove_notin by (intro H; apply Hn; eapply firstn_In; exact H).
+    apply firstn_all2. apply firstn_le_length.
+  - rewrite !(set_remove_cons_neq _ _ _ E).
+    destruct k as [|k]; [reflexivity|]. cbn [firstn]. f_equal. now apply IH.
+Qed.
+
+Lemma window_NoDup size seen : NoDup (window size seen).
+Proof. apply firstn_NoDup, recent_NoDup. Qed.
+
+Lemma window_len size seen : 0 <= size -> zlen (window size seen) <= size.
+Proof. intro H. unfold zlen, window. pose proof (firstn_le_length (Z.to_nat size) (recent seen)). lia. Qed.
+
+Lemma window_In size seen x : In x (window size seen) -> In x seen.
+Proof. intro H. apply recent_In. eapply firstn_In. exact H. Qed.
+
+Lemma window_nil size : window size [] = [].
+Proof. unfold window. simpl. apply firstn_nil. Qed.
+
+(** one access (hit or miss) of the cache *)
+Definition lru_touch (size : Z) (x : str) (w : list str) : list str :=
+  firstn (Z.to_nat size) (x :: set_remove x w).
+
+Lemma lru_touch_window size x seen :
+  1 <= size -> lru_touch size x (window size seen) = window size (x :: seen).
+Proof.
+  intro H. unfold lru_touch, window. cbn [recent].
+  destruct (Z.to_nat size) as [|k] eqn:E; [lia|]. cbn [firstn]. f_equal.
+  apply firstn_remove_prefix, recent_NoDup.
+Qed.
+
+(** look-up followed (on a miss) by Add, on a cache within its size *)
+Lemma lru_access size x w :
+  1 <= size -> NoDup w -> zlen w <= size ->
+  (In x w -> lru_get true x w = (lru_touch size x w, true)) /\
+  (~ In x w -> lru_get true x w = (w, false) /\ lru_add size x w = lru_touch size x w).
+Proof.
+  intros S ND L. unfold lru_get, lru_add, lru_touch, lru_promote. split; intro H.
+  - assert (M : mem_str x w = true) by (now apply mem_str_In). rewrite M. f_equal.
+    symmetry. apply firstn_all2. cbn [length]. rewrite (set_remove_length_in x w ND H).
+    unfold zlen in L. lia.
+  - assert (M : mem_str x w = false) by (now apply mem_str_false). rewrite M. split; [reflexivity|].
+    rewrite (set_remove_notin x w H). rewrite zlen_cons.
+    destruct (zlen w + 1 >? size) eqn:G.
+    + apply Z.gtb_lt in G. rewrite removelast_firstn_len. cbn [length Nat.pred].
+      f_equal. unfold zlen in *. lia.
+    + apply gtb_false in G. symmetry. apply firstn_all2. cbn [length]. unfold zlen in *. lia.
+Qed.
+
+(** ** receive side *)
+Definition recv_reply (e : event) : smsg := SOk (ev_id e) false dup_prefix (txt "the event already found").
+
+Lemma recv_unique_step size w e :
+  1 <= size -> NoDup w -> zlen w <= size ->
+  recv_unique_client size w (CEvent e) =
+  (lru_touch size (ev_id e) w,
+   if mem_str (ev_id e) w then Reject (recv_reply e) else Forward (CEvent e)).
+Proof.
+  intros S ND L. cbn [recv_unique_client]. rewrite g_recv_unique_lookup_promotes_ok.
+  destruct (lru_access size (ev_id e) w S ND L) as [A B].
+  destruct (mem_str (ev_id e) w) eqn:M.
+  - apply mem_str_In in M. rewrite (A M). rewrite g_recv_unique_hit_ok. reflexivity.
+  - apply mem_str_false in M. destruct (B M) as [B1 B2]. rewrite B1, g_recv_unique_hit_ok, B2. reflexivity.
+Qed.
+
+Lemma recv_layer_event size now w e :
+  1 <= size -> NoDup w -> zlen w <= size ->
+  mw_client_step (RecvUnique size) now (StLru w) (CEvent e) =
+  (StLru (lru_touch size (ev_id e) w),
+   if mem_str (ev_id e) w then Reject (recv_reply e) else Forward (CEvent e)).
+Proof.
+  intros S ND L. cbn [mw_client_step st_lru]. now rewrite (recv_unique_step size w e S ND L).
+Qed.
+
+Lemma cev_ids_cons m h acc :
+  cev_ids (m :: h) acc = cev_ids h (match m with CEvent e => ev_id e :: acc | _ => acc end).
+Proof. destruct m; reflexivity. Qed.
+
+(** [lru_is_recent_window]: after every history the cache holds exactly the
+    last [size] distinct event ids seen, newest first *)
+Theorem lru_is_recent_window size now h seen :
+  1 <= size ->
+  fst (layer_run (RecvUnique size) now (StLru (window size seen)) h) = StLru (window size (cev_ids h seen)).
+Proof.
+  intro S. revert seen. induction h as [|m h IH]; intro seen; [reflexivity|].
+  cbn [layer_run]. rewrite cev_ids_cons.
+  destruct m as [e| | | |];
+    try (cbn [mw_client_step]; specialize (IH seen);
+         destruct (layer_run (RecvUnique size) now (StLru (window size seen)) h); exact IH).
+  rewrite recv_layer_event by (auto using window_NoDup; apply window_len; lia).
+  rewrite lru_touch_window by assumption. specialize (IH (ev_id e :: seen)).
+  destruct (layer_run (RecvUnique size) now (StLru (window size (ev_id e :: seen))) h). exact IH.
+Qed.
+
+(** the decision for the next EVENT after any history: answered (OK false,
+    its own id, the duplicate prefix) and not forwarded iff its id is among
+    the last [size] distinct ids seen; forwarded unchanged otherwise *)
+Theorem recv_unique_decision size now h e :
+  1 <= size ->
+  snd (mw_client_step (RecvUnique size) now (fst (layer_run (RecvUnique size) now (StLru []) h)) (CEvent e)) =
+  if mem_str (ev_id e) (window size (cev_ids h [])) then Reject (recv_reply e) else Forward (CEvent e).
+Proof.
+  intro S. pose proof (lru_is_recent_window size now h [] S) as W.
+  rewrite (window_nil size) in W. rewrite W.
+  rewrite recv_layer_event by (auto using window_NoDup; apply window_len; lia). reflexivity.
+Qed.
+
+Theorem recv_unique_no_repeat size now h e :
+  1 <= size -> In (ev_id e) (window size (cev_ids h [])) ->
+  snd (mw_client_step (RecvUnique size) now (fst (layer_run (RecvUnique size) now (StLru []) h)) (CEvent e)) =
+  Reject (SOk (ev_id e) false dup_prefix (txt "the event already found")).
+Proof.
+  intros S H. rewrite recv_unique_decision by assumption. apply mem_str_In in H. now rewrite H.
+Qed.
+
+Theorem recv_unique_no_false_reject size now h e :
+  1 <= size -> ~ In (ev_id e) (cev_ids h []) ->
+  snd (mw_client_step (RecvUnique size) now (fst (layer_run (RecvUnique size) now (StLru []) h)) (CEvent e)) =
+  Forward (CEvent e).
+Proof.
+  intros S H. rewrite recv_unique_decision by assumption.
+  assert (M : mem_str (ev_id e) (window size (cev_ids h [])) = false).
+  { apply mem_str_false. intro H1. apply H. eapply window_In; eauto. }
+  now rewrite M.
+Qed.
+
+(** ** send side *)
+Fixpoint server_run (k : mwk) (st : mstate) (h : list smsg) : mstate * list (option smsg) :=
+  match h with
+  | [] => (st, [])
+  | s :: r =>
+      let (st1, o) := mw_server_step k st s in
+      let (st2, os) := server_run k st1 r in
+      (st2, o :: os)
+  end.
+
+Lemma send_layer_event size w sub e :
+  1 <= size -> NoDup w -> zlen w <= size ->
+  mw_server_step (SendUnique size) (StLru w) (SEvent sub e) =
+  (StLru (lru_touch size (ev_id e) w), if mem_str (ev_id e) w then None else Some (SEvent sub e)).
+Proof.
+  intros S ND L. cbn [mw_server_step st_lru send_unique_server]. rewrite g_send_unique_lookup_promotes_ok.
+  destruct (lru_access size (ev_id e) w S ND L) as [A B].
+  destruct (mem_str (ev_id e) w) eqn:M.
+  - apply mem_str_In in M. rewrite (A M). rewrite g_send_unique_hit_ok. reflexivity.
+  - apply mem_str_false in M. destruct (B M) as [B1 B2]. rewrite B1, g_send_unique_hit_ok, B2. reflexivity.
+Qed.
+
+Lemma sev_ids_cons m h acc :
+  sev_ids (m :: h) acc = sev_ids h (match m with SEvent _ e => ev_id e :: acc | _ => acc end).
+Proof. destruct m; reflexivity. Qed.
+
+Theorem send_lru_is_recent_window size h seen :
+  1 <= size ->
+  fst (server_run (SendUnique size) (StLru (window size seen)) h) = StLru (window size (sev_ids h seen)).
+Proof.
+  intro S. revert seen. induction h as [|m h IH]; intro seen; [reflexivity|].
+  cbn [server_run]. rewrite sev_ids_cons.
+  destruct m as [ |sub e| | | | | ];
+    try (cbn [mw_server_step]; specialize (IH seen);
+         destruct (server_run (SendUnique size) (StLru (window size seen)) h); exact IH).
+  rewrite send_layer_event by (auto using window_NoDup; apply window_len; lia).
+  rewrite lru_touch_window by assumption. specialize (IH (ev_id e :: seen)).
+  destruct (server_run (SendUnique size) (StLru (window size (ev_id e :: seen))) h). exact IH.
+Qed.
+
+(** an EVENT is dropped (nothing is delivered) iff its id is among the last
+    [size] distinct ids delivered-or-dropped before; it is delivered unchanged
+    otherwise; every other server message is delivered unchanged *)
+Theorem send_unique_decision size h sub e :
+  1 <= size ->
+  snd (mw_server_step (SendUnique size) (fst (server_run (SendUnique size) (StLru []) h)) (SEvent sub e)) =
+  if mem_str (ev_id e) (window size (sev_ids h [])) then None else Some (SEvent sub e).
+Proof.
+  intro S. pose proof (send_lru_is_recent_window size h [] S) as W.
+  rewrite (window_nil size) in W. rewrite W.
+  rewrite send_layer_event by (auto using window_NoDup; apply window_len; lia). reflexivity.
+Qed.
+
+Theorem send_unique_no_repeat size h sub e :
+  1 <= size -> In (ev_id e) (window size (sev_ids h [])) ->
+  snd (mw_server_step (SendUnique size) (fst (server_run (SendUnique size) (StLru []) h)) (SEvent sub e)) = None.
+Proof.
+  intros S H. rewrite send_unique_decision by assumption. apply mem_str_In in H. now rewrite H.
+Qed.
+
+Theorem send_unique_no_false_drop size h sub e :
+  1 <= size -> ~ In (ev_id e) (sev_ids h []) ->
+  snd (mw_server_step (SendUnique size) (fst (server_run (SendUnique size) (StLru []) h)) (SEvent sub e)) =
+  Some (SEvent sub e).
+Proof.
+  intros S H. rewrite send_unique_decision by assumption.
+  assert (M : mem_str (ev_id e) (window size (sev_ids h [])) = false).
+  { apply mem_str_false. intro H1. apply H. eapply window_In; eauto. }
+  now rewrite M.
+Qed.
+
+(** consequence, in the words of the property: in every history the
+    delivered EVENTs never show the same id twice within a window, i.e. a
+    delivered id is never among the last [size] distinct ids before it *)
+Theorem send_unique_delivered_outside_window size h sub e :
+  1 <= size ->
+  snd (mw_server_step (SendUnique size) (fst (server_run (SendUnique size) (StLru []) h)) (SEvent sub e)) <> None ->
+  ~ In (ev_id e) (window size (sev_ids h [])).
+Proof.
+  intros S H Hin. apply H. now apply send_unique_no_repeat.
+Qed.
+
+(* ------------------------------------------------------------------ *)
+(** ** sessions *)
+
+Lemma nth_error_upd_same {A} i (x : A) l y : nth_error l i = Some y -> nth_error (upd i x l) i = Some x.
+Proof.
+  revert i. induction l as [|z l IH]; intros [|i]; simpl; try discriminate; auto.
+Qed.
+
+Lemma nth_error_upd_other {A} i j (x : A) l : i <> j -> nth_error (upd i x l) j = nth_error l j.
+Proof.
+  revert i j. induction l as [|z l IH]; intros [|i] [|j] H; simpl; auto; try congruence.
+Qed.
+
+(** a step of session [i] leaves every other session's state untouched ... *)
+Theorem sys_step_other now sy i j o :
+  i <> j -> nth_error (fst (sys_step now sy i o)) j = nth_error sy j.
+Proof.
+  intro H. unfold sys_step. destruct (nth_error sy i) as [ls|]; [|reflexivity].
+  destruct (sess_step now ls o) as [ls' ob]. cbn [fst]. now apply nth_error_upd_other.
+Qed.
+
+(** ... and is determined by session [i]'s own state alone *)
+Theorem sys_step_local now sy i o ls :
+  nth_error sy i = Some ls ->
+  snd (sys_step now sy i o) = snd (sess_step now ls o) /\
+  nth_error (fst (sys_step now sy i o)) i = Some (fst (sess_step now ls o)).
+Proof.
+  intro H. unfold sys_step. rewrite H. destruct (sess_step now ls o) as [ls' ob]. cbn [fst snd].
+  split; [reflexivity|]. eapply nth_error_upd_same; eauto.
+Qed.
+
+(** [sessions_independent]: in every interleaved history of any number of
+    sessions, what session [j] shows and the state it ends in are those of
+    running its own operations alone *)
+Theorem sessions_independent now h : forall sy j ls,
+  nth_error sy j = Some ls ->
+  nth_error (fst (sys_run now sy h)) j = Some (fst (sess_run now ls (proj j h))) /\
+  proj j (combine (List.map fst h) (snd (sys_run now sy h))) = snd (sess_run now ls (proj j h)).
+Proof.
+  induction h as [|[i o] h IH]; intros sy j ls H; [split; [exact H | reflexivity]|].
+  cbn [sys_run proj List.map fst].
+  destruct (sys_step now sy i o) as [sy1 ob] eqn:E.
+  destruct (Nat.eqb i j) eqn:Eij.
+  - apply Nat.eqb_eq in Eij. subst i.
+    destruct (sys_step_local now sy j o ls H) as [A B]. rewrite E in A, B. cbn [fst snd] in A, B.
+    cbn [sess_run]. destruct (sess_step now ls o) as [ls1 ob1] eqn:E1. cbn [fst snd] in A, B. subst ob1.
+    destruct (IH sy1 j ls1 B) as [C D].
+    destruct (sys_run now sy1 h) as [sy2 obs]. destruct (sess_run now ls1 (proj j h)) as [ls2 obs'].
+    cbn [fst snd combine proj] in *. rewrite Nat.eqb_refl. split; [exact C | now f_equal].
+  - apply Nat.eqb_neq in Eij.
+    pose proof (sys_step_other now sy i j o Eij) as A. rewrite E in A. cbn [fst] in A. rewrite H in A.
+    destruct (IH sy1 j ls A) as [C D].
+    destruct (sys_run now sy1 h) as [sy2 obs]. cbn [fst snd combine proj] in *.
+    apply Nat.eqb_neq in Eij. rewrite Eij. split; assumption.
+Qed.
+
+(* ================================================================== *)
+(** * 4. the model satisfies the oracle, for every stack and every history *)
+
+Definition wf_k (k : mwk) : Prop :=
+  match k with
+  | MaxSubs n => 0 <= n
+  | RecvUnique s | SendUnique s => 1 <= s
+  | _ => True
+  end.
+
+(** the oracle's state of a layer describes the model's state of that layer *)
+Definition sim (l : layer) (sl : slayer) : Prop :=
+  fst l = fst sl /\ wf_k (fst l) /\
+  match fst l with
+  | MaxSubs n => exists open, snd l = StSubs open /\ snd sl = SpOpen open /\ q_inv n open
+  | RecvUnique size | SendUnique size => exists seen, snd l = StLru (window size seen) /\ snd sl = SpSeen seen
+  | _ => True
+  end.
+
+Lemma cmsg_eqb_refl m : cmsg_eqb m m = true.
+Proof. now apply cmsg_eqb_eq. Qed.
+Lemma smsg_eqb_refl m : smsg_eqb m m = true.
+Proof. now apply smsg_eqb_eq. Qed.
+
+Lemma sp_reply_ok_plain k m r :
+  (forall s, k <> RecvUnique s) -> reject_shape m r -> sp_reply_ok k m r = true.
+Proof.
+  intros H S. unfold sp_reply_ok. apply reject_shapeb_spec in S. rewrite S.
+  destruct k; try reflexivity. exfalso. eapply H. reflexivity.
+Qed.
+
+Lemma sim_step now k st ss m :
+  sim (k, st) (k, ss) ->
+  match mw_client_step k now st m with
+  | (st1, Forward m') =>
+      m' = m /\ sp_verdict k now ss m <> VReject /\ sim (k, st1) (k, sp_update k ss m true)
+  | (st1, Reject r) =>
+      sp_verdict k now ss m = VReject /\ sp_reply_ok k m r = true /\
+      sim (k, st1) (k, sp_update k ss m false)
+  end.
+Proof.
+  intros (_ & W & S). cbn [fst snd] in *.
+  assert (STL : stateless k = true ->
+          match mw_client_step k now st m with
+          | (st1, Forward m') => m' = m /\ sp_verdict k now ss m <> VReject /\ sim (k, st1) (k, sp_update k ss m true)
+          | (st1, Reject r) => sp_verdict k now ss m = VReject /\ sp_reply_ok k m r = true /\
+                               sim (k, st1) (k, sp_update k ss m false)
+          end).
+  { intro St. rewrite (stateless_step k now st m St).
+    assert (V : sp_verdict k now ss m = if respectsb k now m then VForward else VReject)
+      by (destruct k; try discriminate St; reflexivity).
+    assert (U : forall b, sp_update k ss m b = ss) by (destruct k; try discriminate St; reflexivity).
+    assert (SM : sim (k, st) (k, ss)) by (repeat split; auto; destruct k; auto; discriminate St).
+    destruct (mw_client_cases k now m) as [[E R]|[r [E [R Sh]]]]; rewrite E, V, R, ?U.
+    - repeat split; auto. discriminate.
+    - repeat split; auto. apply sp_reply_ok_plain; auto. intros s ->. discriminate St. }
+  destruct k; try (apply STL; reflexivity); clear STL.
+  - (* quota *)
+    destruct S as (open & -> & -> & I).
+    rewrite quota_layer_step.
+    destruct m as [e|sub fs|sub|e|sub fs];
+      try solve [cbn [quota_client fst snd sp_verdict sp_update]; repeat split; auto; try discriminate;
+                 cbn [fst snd]; eauto].
+    + destruct (quota_req n open sub fs I) as [A B].
+      cbn [sp_verdict sp_open sp_update].
+      destruct (mem_str sub open) eqn:M; cbn [orb].
+      * apply mem_str_In in M. rewrite (A (or_introl M)). cbn [fst snd].
+        repeat split; auto; try discriminate. cbn [fst snd]. eexists; split; [reflexivity|]; split; [reflexivity|].
+        pose proof (quota_step_inv n open (CReq sub fs) I) as I'. now rewrite (A (or_introl M)) in I'.
+      * destruct (zlen open <? n) eqn:L.
+        -- apply Z.ltb_lt in L. rewrite (A (or_intror L)). cbn [fst snd].
+           repeat split; auto; try discriminate. cbn [fst snd]. eexists; split; [reflexivity|]; split; [reflexivity|].
+           pose proof (quota_step_inv n open (CReq sub fs) I) as I'. now rewrite (A (or_intror L)) in I'.
+        -- apply Z.ltb_ge in L. apply mem_str_false in M.
+           destruct B as [t E]; [intros [H|H]; [contradiction | lia]|]. rewrite E. cbn [fst snd].
+           repeat split; auto.
+           ++ unfold sp_reply_ok. cbn [reject_shapeb]. now rewrite str_eqb_refl.
+           ++ cbn [fst snd]. eexists; split; [reflexivity|]; split; [reflexivity|]. exact I.
+    + (* CLOSE *)
+      cbn [quota_client fst snd sp_verdict sp_update sp_open]. repeat split; auto; try discriminate.
+      cbn [fst snd]. eexists; split; [reflexivity|]; split; [reflexivity|].
+      apply (quota_step_inv n open (CClose sub) I).
+  - (* receive-side unique *)
+    destruct S as (seen & -> & ->).
+    destruct m as [e|sub fs|sub|e|sub fs];
+      try solve [cbn [mw_client_step sp_verdict sp_update]; repeat split; auto; try discriminate;
+                 cbn [fst snd]; eauto].
+    rewrite recv_layer_event by (auto using window_NoDup; apply window_len; cbn in W; lia).
+    rewrite lru_touch_window by exact W.
+    cbn [sp_verdict sp_seen sp_update].
+    destruct (mem_str (ev_id e) (window size seen)) eqn:M.
+    + repeat split; auto.
+      * unfold sp_reply_ok, recv_reply. cbn [reject_shapeb]. now rewrite !str_eqb_refl.
+      * cbn [fst snd]. eauto.
+    + repeat split; auto.
+      * destruct (mem_str (ev_id e) seen); discriminate.
+      * cbn [fst snd]. eauto.
+  - (* send-side unique: the identity on client messages *)
+    cbn [mw_client_step mw_client sp_verdict sp_update]. repeat split; auto. discriminate.
+Qed.
+
+Lemma is_rejection_single k m r : is_rejection k m [] [r] = sp_reply_ok k m r.
+Proof. reflexivity. Qed.
+
+(** client messages *)
+Lemma sim_client now m : forall ls sl,
+  Forall2 sim ls sl ->
+  exists sl',
+    sp_client now sl m (opt_list (snd (fst (stack_client now ls m)))) (snd (stack_client now ls m)) = Some sl' /\
+    Forall2 sim (fst (fst (stack_client now ls m))) sl'.
+Proof.
+  induction 1 as [|[k st] [k' ss] ls sl S F IH].
+  - exists []. cbn. rewrite cmsg_eqb_refl. split; [reflexivity | constructor].
+  - assert (k' = k) by (destruct S as [E _]; now cbn in E). subst k'.
+    pose proof (sim_step now k st ss m S) as ST.
+    pose proof (stack_client_spec now ls m) as SP.
+    cbn [stack_client sp_client].
+    destruct (mw_client_step k now st m) as [st1 [m'|r]].
+    + destruct ST as (-> & NV & S1).
+      destruct (stack_client now ls m) as [[inner' o] rs] eqn:E.
+      destruct IH as (sl' & IH1 & IH2). cbn [fst snd] in IH1, IH2.
+      assert (P : layer_server_many k st1 rs = (st1, rs)).
+      { destruct o as [m'|].
+        - destruct SP as (_ & -> & _). reflexivity.
+        - destruct SP as (pre & l & post & r & _ & _ & _ & Sh & -> & _).
+          apply reply_passes. eapply reject_shape_not_event; eauto. }
+      rewrite P. cbn [fst snd]. rewrite IH1.
+      exists ((k, sp_update k ss m true) :: sl'). split.
+      * destruct (sp_verdict k now ss m); [reflexivity | congruence | reflexivity].
+      * constructor; assumption.
+    + destruct ST as (V & R & S1). cbn [fst snd opt_list]. rewrite V, is_rejection_single, R.
+      exists ((k, sp_update k ss m false) :: sl). split; [reflexivity|]. constructor; assumption.
+Qed.
+
+(** server messages *)
+Lemma stack_server_app a b s :
+  stack_server (a ++ b) s =
+  match stack_server b s with
+  | (b', None) => (a ++ b', None)
+  | (b', Some s') => let (a', o) := stack_server a s' in (a' ++ b', o)
+  end.
+Proof.
+  induction a as [|[k st] a IH]; cbn [app stack_server].
+  - destruct (stack_server b s) as [b' [s'|]]; reflexivity.
+  - rewrite IH. destruct (stack_server b s) as [b' [s'|]]; [|reflexivity].
+    destruct (stack_server a s') as [a' [s''|]]; [|reflexivity].
+    destruct (mw_server_step k st s''); reflexivity.
+Qed.
+
+Lemma sim_server_step k st ss s :
+  sim (k, st) (k, ss) ->
+  (* not the send-side filter, or not an EVENT: identity on both sides *)
+  ((forall n, k <> SendUnique n) \/ smsg_is_event s = false ->
+   mw_server_step k st s = (st, Some s)) /\
+  (forall size sub e, k = SendUnique size -> s = SEvent sub e ->
+   exists seen, ss = SpSeen seen /\
+     mw_server_step k st s =
+       (StLru (window size (ev_id e :: seen)),
+        if mem_str (ev_id e) (window size seen) then None else Some s) /\
+     sim (k, StLru (window size (ev_id e :: seen))) (k, SpSeen (ev_id e :: seen))).
+Proof.
+  intros (_ & W & S). cbn [fst snd] in *. split; [apply mw_server_identity|].
+  intros size sub e -> ->. destruct S as (seen & -> & ->). exists seen. split; [reflexivity|].
+  rewrite send_layer_event by (auto using window_NoDup; apply window_len; cbn in W; lia).
+  rewrite lru_touch_window by exact W. split; [reflexivity|].
+  repeat split; auto. cbn [fst snd]. eauto.
+Qed.
+
+Lemma stack_server_single k st s :
+  stack_server [(k, st)] s = let (st', o) := mw_server_step k st s in ([(k, st')], o).
+Proof. reflexivity. Qed.
+
+Lemma sp_in_other k ss outer s d :
+  (forall n, k <> SendUnique n) \/ smsg_is_event s = false ->
+  sp_server_in ((k, ss) :: outer) s d =
+  match sp_server_in outer s d with Some o' => Some ((k, ss) :: o') | None => None end.
+Proof.
+  intro C. cbn [sp_server_in]. destruct C as [C|C].
+  - destruct k; try reflexivity. exfalso. eapply C. reflexivity.
+  - destruct k; try reflexivity. destruct s; try reflexivity. discriminate C.
+Qed.
+
+Lemma sp_in_event size ss outer sub e d :
+  sp_server_in ((SendUnique size, ss) :: outer) (SEvent sub e) d =
+  let seen := sp_seen ss in
+  let l' := (SendUnique size, SpSeen (ev_id e :: seen)) in
+  let pass := match sp_server_in outer (SEvent sub e) d with Some o' => Some (l' :: o') | None => None end in
+  let drop := if d then None else Some (l' :: outer) in
+  if mem_str (ev_id e) (window size seen) then drop
+  else if mem_str (ev_id e) seen then match pass with Some x => Some x | None => drop end
+  else pass.
+Proof. reflexivity. Qed.
+
+Definition is_some {A} (o : option A) : bool := match o with Some _ => true | None => false end.
+
+Lemma sim_server s : forall ls sl,
+  Forall2 sim ls sl ->
+  (snd (stack_server ls s) = None \/ snd (stack_server ls s) = Some s) /\
+  exists sl',
+    sp_server_in (rev sl) s (is_some (snd (stack_server ls s))) = Some (rev sl') /\
+    Forall2 sim (fst (stack_server ls s)) sl'.
+Proof.
+  intro ls. induction ls as [|l ls IH] using rev_ind; intros sl F.
+  - inversion F; subst. split; [now right|]. exists []. split; [reflexivity | constructor].
+  - apply Forall2_app_inv_l in F as (sl0 & sl1 & F0 & F1 & ->).
+    inversion F1 as [|? x ? ? S F2]; subst. inversion F2; subst. clear F1 F2.
+    destruct l as [k st], x as [k' ss].
+    assert (k' = k) by (destruct S as [E _]; now cbn in E). subst k'.
+    rewrite stack_server_app, rev_app_distr, stack_server_single. cbn [rev app].
+    destruct (sim_server_step k st ss s S) as [ID EV].
+    assert (Case : ((forall n, k <> SendUnique n) \/ smsg_is_event s = false) \/
+                   exists size sub e, k = SendUnique size /\ s = SEvent sub e).
+    { destruct k; try (left; left; intros n0 H0; discriminate H0).
+      destruct s; try (left; right; reflexivity). right. eauto. }
+    destruct Case as [C|(size & sub & e & -> & ->)].
+    + rewrite (ID C). cbn [fst snd].
+      destruct (IH sl0 F0) as (O & sl' & P & Q).
+      destruct (stack_server ls s) as [ls' o] eqn:E. cbn [fst snd] in *.
+      split; [exact O|]. exists (sl' ++ [(k, ss)]). split.
+      * rewrite (sp_in_other k ss _ s _ C), P, rev_app_distr. reflexivity.
+      * apply Forall2_app; [assumption | constructor; [assumption | constructor]].
+    + destruct (EV size sub e eq_refl eq_refl) as (seen & -> & ST & S1). rewrite ST, sp_in_event.
+      cbn [sp_seen]. destruct (mem_str (ev_id e) (window size seen)) eqn:M; cbn [fst snd is_some].
+      * (* dropped by this layer: the outer layers never see it *)
+        split; [now left|]. exists (sl0 ++ [(SendUnique size, SpSeen (ev_id e :: seen))]). split.
+        -- rewrite rev_app_distr. reflexivity.
+        -- apply Forall2_app; [assumption | constructor; [assumption | constructor]].
+      * destruct (IH sl0 F0) as (O & sl' & P & Q).
+        destruct (stack_server ls (SEvent sub e)) as [ls' o] eqn:E. cbn [fst snd] in *.
+        split; [exact O|]. exists (sl' ++ [(SendUnique size, SpSeen (ev_id e :: seen))]). split.
+        -- rewrite P, rev_app_distr. cbn [rev app]. destruct (mem_str (ev_id e) seen); reflexivity.
+        -- apply Forall2_app; [assumption | constructor; [assumption | constructor]].
+Qed.
+
+Lemma sim_init ks : Forall wf_k ks -> Forall2 sim (stack_init ks) (sp_stack_init ks).
+Proof.
+  induction 1 as [|k ks W _ IH]; [constructor|].
+  cbn [stack_init sp_stack_init List.map]. constructor; [|exact IH].
+  split; [reflexivity|]. split; [exact W|]. cbn [fst snd].
+  destruct k; cbn [mw_init sp_init]; auto.
+  - exists []. repeat split; [constructor | exact W].
+  - exists []. now rewrite window_nil.
+  - exists []. now rewrite window_nil.
+Qed.
+
+Lemma sim_step_op now o : forall ls sl,
+  Forall2 sim ls sl ->
+  exists sl', sp_step now sl o (snd (sess_step now ls o)) = Some sl' /\
+              Forall2 sim (fst (sess_step now ls o)) sl'.
+Proof.
+  intros ls sl F. destruct o as [m|s]; cbn [sess_step sp_step].
+  - destruct (sim_client now m ls sl F) as (sl' & A & B).
+    destruct (stack_client now ls m) as [[ls' d] rs]. cbn [fst snd] in *. eauto.
+  - destruct (sim_server s ls sl F) as (O & sl' & A & B).
+    destruct (stack_server ls s) as [ls' d]. cbn [fst snd] in *.
+    destruct O as [-> | ->]; cbn [opt_list is_some] in *.
+    + cbn. rewrite A, rev_involutive. eauto.
+    + cbn [cmsgs_eqb smsgs_eqb list_eqb andb]. rewrite smsg_eqb_refl. cbn [andb].
+      rewrite A, rev_involutive. eauto.
+Qed.
+
+(** [model_satisfies_oracle]: for every stack of middlewares (quota N >= 0,
+    window sizes >= 1) and every history of client and server messages, what
+    the model shows is accepted by the oracle that reads the property text *)
+Theorem model_satisfies_oracle_from now h : forall ls sl,
+  Forall2 sim ls sl -> sp_run now sl h (snd (sess_run now ls h)) = true.
+Proof.
+  induction h as [|o h IH]; intros ls sl F; [reflexivity|].
+  cbn [sess_run]. destruct (sim_step_op now o ls sl F) as (sl' & A & B).
+  destruct (sess_step now ls o) as [ls1 ob]. cbn [fst snd] in *.
+  specialize (IH ls1 sl' B). destruct (sess_run now ls1 h) as [ls2 obs]. cbn [fst snd] in *.
+  cbn [sp_run]. now rewrite A.
+Qed.
+
+Theorem model_satisfies_oracle now ks h :
+  Forall wf_k ks -> sp_run now (sp_stack_init ks) h (snd (sess_run now (stack_init ks) h)) = true.
+Proof. intro W. apply model_satisfies_oracle_from, sim_init, W. Qed.
+
+Lemma nth_error_repeat {A} (x : A) n j : (j < n)%nat -> nth_error (repeat x n) j = Some x.
+Proof.
+  revert j. induction n as [|n IH]; intros [|j] H; simpl; try lia; [reflexivity | apply IH; lia].
+Qed.
+
+(** the same with any number of sessions sharing the middleware value: every
+    session's own view of every interleaved history is accepted *)
+Theorem model_satisfies_oracle_sys now ks n h j :
+  Forall wf_k ks -> (j < n)%nat ->
+  sp_run now (sp_stack_init ks) (proj j h)
+         (proj j (combine (List.map fst h) (snd (sys_run now (sys_init ks n) h)))) = true.
+Proof.
+  intros W L.
+  destruct (sessions_independent now h (sys_init ks n) j (stack_init ks)) as [_ E].
+  { unfold sys_init. now apply nth_error_repeat. }
+  rewrite E. now apply model_satisfies_oracle.
+Qed.
